@@ -36,6 +36,7 @@ type RunCase struct {
 	UCI      *UCIScenario    `json:"uci,omitempty"`
 	UCICfg   *UCIGenCfg      `json:"uci_cfg,omitempty"` // generation mode only: the policy configuration
 	C14      []c14Case       `json:"c14,omitempty"`
+	C14Real  bool            `json:"c14_real,omitempty"` // C14 cases run against the real search (parked inside its tree)
 }
 
 // RunResult is what one run produced.
@@ -112,6 +113,9 @@ func legFor(property string, rng *rand.Rand, tier string) string {
 			return "uci-sweep"
 		}
 	case "C14":
+		if x < 25 {
+			return "c14-real"
+		}
 		return "c14"
 	}
 	return "search"
@@ -153,7 +157,7 @@ func generateCase(property string, tier string, run, seed uint64) (*RunCase, *ra
 		if cfg.Hash || rng.IntN(3) == 0 {
 			rc.UCI.TTBytes = pick(rng, []int{32000, 65536, 1 << 20})
 		}
-	case "c14":
+	case "c14", "c14-real":
 		n := 24
 		if thorough {
 			n = 60
@@ -167,6 +171,10 @@ func generateCase(property string, tier string, run, seed uint64) (*RunCase, *ra
 				cases = cases[:i]
 				break
 			}
+		}
+		if rc.Leg == "c14-real" {
+			cases = realiseC14Cases(rng, cases)
+			rc.C14Real = true
 		}
 		rc.C14 = cases
 	}
